@@ -139,7 +139,9 @@ def check_case(case) -> Obs:
         path = os.path.join(base, case["name"])
         arg = pathlib.Path(path) if case["path_kind"] == "Path" else path
         obs.cls("mode:" + mode, "path:" + case["path_kind"])
-        cls = robotools.EvoWorklist
+        # the class varies with the case: EvoWorklist, its deprecated alias Worklist, FluentWorklist, BaseWorklist
+        cls = [robotools.EvoWorklist, robotools.Worklist, robotools.FluentWorklist, robotools.BaseWorklist][(len(case["name"]) + len(case["steps"])) % 4]
+        obs.cls("class:" + cls.__name__)
         # expected size of the new content decides what "longer"/"shorter" means
         probe = cls()
         _apply(probe, case["steps"])
